@@ -286,3 +286,66 @@ def explain_walk(*a):
 
 
 EXPLAIN = {"_ign": explain_ign, "_walk": explain_walk}
+
+
+# ------------------------------------------------------------------ annotate --recursive expansion
+import reuse._util as ut  # noqa: E402
+import reuse.cli.annotate as an  # noqa: E402
+import reuse.project as pj  # noqa: E402
+
+
+def _rec_story(d1, d1sym, d1ign, d1sub, g, gk, gign, use_vcs, req):
+    dn, gi, gkind, d1sym, d1ign, d1sub, gign, fs, tree, vcs, (D1, G, D2, H, F) = _tree(d1, d1sym, d1ign, d1sub, g, gk, gign, False)
+    use_vcs = _b(use_vcs)
+    inc_sub, inc_meson, inc_toml = FLAGS
+    FakePath.FS = fs
+    targets = [ROOT, D1, D2, F, G]
+    t = targets[_pick_from(req, PARAMS.get("requests", [0, 1, 2, 3, 4]))]
+    saved = (cf.Path, cf.os.walk, ut.Path, pj.Path)
+    cf.Path = FakePath
+    ut.Path = FakePath
+    cf.os.walk = walk_model(tree)
+    try:
+        project = pj.Project(FakePath(ROOT), vcs_strategy=vcs if use_vcs else FakeVCS(set(), set()), license_map={}, licenses={}, include_submodules=inc_sub, include_meson_subprojects=inc_meson)
+        got = sorted(str(p) for p in an.all_paths([FakePath(t)], True, project))
+    finally:
+        cf.Path, cf.os.walk, ut.Path, pj.Path = saved
+    dname_idx = {"src": 0, "LICENSES": 6, ".git": 18, "subprojects": 24, ".reuse": 22}[dn]
+    d1_out = spec_ignored(dname_idx, "symlink-dir" if d1sym else "dir", "proj", use_vcs, d1ign, d1sub, inc_sub, inc_meson, False, None)
+    d2_out = spec_ignored(0, "dir", dn, use_vcs, False, False, inc_sub, inc_meson, False, None)
+    covered = [F]
+    if not d1_out:
+        if not spec_ignored(gi, gkind, dn, use_vcs, gign, False, inc_sub, inc_meson, False, None):
+            covered.append(G)
+        if not d2_out:
+            covered.append(H)
+    if t in (F, G):
+        # a file named explicitly is annotated as given (if it is a file at all)
+        exp = [t] if fs.get(t) in ("file", "empty", "symlink-file", "stat-error-file") else []
+    else:
+        exp = [c for c in covered if c.startswith(t + "/")]
+    d = {"dir": dn, "dir_symlink": d1sym, "dir_vcs_ignored": d1ign, "dir_submodule": d1sub, "file": NAMES[gi][0], "file_kind": gkind, "file_vcs_ignored": gign, "vcs": use_vcs, "flags": FLAGS, "requested": t, "got": got, "expected": sorted(exp)}
+    return got == sorted(exp) or known_key(gi) in CARVE, d
+
+
+def _rec(d1: int, d1sym: bool, d1ign: bool, d1sub: bool, g: int, gk: int, gign: bool, use_vcs: bool, req: int) -> bool:
+    """
+    pre: _pre_iter(d1, g, gk) and _member(req, PARAMS.get("requests", [0, 1, 2, 3, 4]))
+    post: _
+    """
+    return _rec_story(d1, d1sym, d1ign, d1sub, g, gk, gign, use_vcs, req)[0]
+
+
+def _rec_reach(d1: int, d1sym: bool, d1ign: bool, d1sub: bool, g: int, gk: int, gign: bool, use_vcs: bool, req: int) -> bool:
+    """
+    pre: _pre_iter(d1, g, gk) and _member(req, PARAMS.get("requests", [0, 1, 2, 3, 4]))
+    post: False
+    """
+    return _rec_story(d1, d1sym, d1ign, d1sub, g, gk, gign, use_vcs, req)[0]
+
+
+def explain_rec(*a):
+    return _rec_story(*a)[1]
+
+
+EXPLAIN["_rec"] = explain_rec
